@@ -226,7 +226,10 @@ EntityTranslation RSForm::DeleteDuplicatesInternal() {
           }
           std::string copyAlias = rsCst2.alias;
           if (EraseInternal(copy)) {
-            translation.Insert(copy, original);
+            // Note: copy can be the target of earlier removals - redirect them to the surviving constituent
+            EntityTranslation removal{};
+            removal.Insert(copy, original);
+            translation.SuperposeWith(removal);
             core.TranslateAll(CreateTranslator({ { copyAlias, rsCst1.alias } }));
             flag = true;
             break;
